@@ -54,4 +54,18 @@ partial def loop (step : List String → String) : IO Unit := do
     go
   go
 
+/-- Stateful variant: `step` threads a model state through the request lines. -/
+partial def loopS {σ : Type} (init : σ) (step : σ → List String → σ × String) : IO Unit := do
+  let stdin ← IO.getStdin
+  let stdout ← IO.getStdout
+  let rec go (s : σ) : IO Unit := do
+    let line ← stdin.getLine
+    if line.isEmpty then return ()
+    let l := if line.endsWith "\n" then (line.dropEnd 1).toString else line
+    let (s', out) := step s (tokens l)
+    stdout.putStrLn out
+    stdout.flush
+    go s'
+  go init
+
 end Driver
